@@ -241,7 +241,8 @@ def run(F, rep):
                         cnd = role(iff, 'cond')
                         if any(x.get('k') == 'Call' and x.get('fn') == 'compatible' for x in walk(cnd)):
                             thn = role(iff, 'then')
-                            zero = any(r.get('k') == 'Return' and r.get('c') and render(r['c'][0]) in ('0', '0.0') for r in walk(thn))
+                            from engines import value_of as _vo8
+                            zero = any(r.get('k') == 'Return' and r.get('c') and render(_vo8(f, r['c'][0])) in ('0', '0.0') for r in walk(thn))
                             if zero and f.cfg().node_dominates(cnd, n):
                                 gates.append(cnd)
                 rep.check(bool(gates), 'C08.G1', 'scalingFactor|compatibility-gate|%s' % render(a), f.where(n), 'no `return 0.0` under a Units::compatible test precedes the reduction', 'preceded by the compatibility gate')
@@ -277,9 +278,8 @@ def run(F, rep):
     for r_ in sff.walk():
         if r_.get('k') != 'Return' or not r_.get('c') or sff.enclosing_lambda(r_) is not None:
             continue
-        e_ = r_['c'][0]
-        while e_.get('k') in ('Paren', 'Cast') and len(e_.get('c', [])) == 1:
-            e_ = e_['c'][0]
+        from engines import value_of as _vo8g
+        e_ = _vo8g(sff, r_['c'][0])
         n_g3 += 1
         if e_.get('k') in ('Float', 'Int'):
             rep.check(float(e_.get('v') or 0) == 0.0, 'C08.G3', 'scalingFactor|return %s@%s' % (render(e_), sum(1 for x in sff.walk() if x.get('k') == 'Return' and x.get('l', 0) < r_.get('l', 0))), sff.where(r_),
